@@ -57,6 +57,42 @@ mut('C15', 'runningcount_wrong_status', S, """		if node.State().Status == NodeSt
 			count++""", """		if node.State().Status == NodeStatusNone {
 			count++""")
 
+# ---- Schedule (role L)
+mut('C01', 'launch_without_none_check', S, """			if node.State().Status != NodeStatusNone || !isReady(g, node) {""", """			if !isReady(g, node) {""")
+mut('C01', 'launch_without_ready_check', S, """			if node.State().Status != NodeStatusNone || !isReady(g, node) {""", """			if node.State().Status != NodeStatusNone {""")
+mut('C02', 'precondition_failure_continues_to_launch', S, """					node.setStatus(NodeStatusSkipped)
+					node.SetError(err)
+					continue NodesIteration""", """					node.setStatus(NodeStatusSkipped)
+					node.SetError(err)""")
+mut('C03', 'status_flip_moved_into_goroutine', S, """			node.setStatus(NodeStatusRunning)
+			go func(node *Node) {
+				defer func() {""", """			go func(node *Node) {
+				node.setStatus(NodeStatusRunning)
+				defer func() {""")
+mut('C04', 'onexit_before_outcome_handler', S, """	var handlers []dag.HandlerType
+	switch sc.Status(g) {""", """	var handlers []dag.HandlerType
+	handlers = append(handlers, dag.HandlerOnExit)
+	switch sc.Status(g) {""")
+mut('C04', 'onfailure_on_cancel', S, """	case StatusCancel:
+		handlers = append(handlers, dag.HandlerOnCancel)""", """	case StatusCancel:
+		handlers = append(handlers, dag.HandlerOnFailure)""")
+mut('C04', 'handlers_before_wait', S, """	wg.Wait()
+
+	var handlers []dag.HandlerType""", """	var handlers []dag.HandlerType""")
+mut('C05', 'cancel_check_before_launch_removed', S, """			if sc.isCanceled() {
+				break NodesIteration
+			}
+""", "")
+mut('C15', 'gate_off_by_one', S, """sc.runningCount(g) >= sc.maxActiveRuns""", """sc.runningCount(g) > sc.maxActiveRuns""")
+mut('C15', 'gate_removed', S, """			if sc.maxActiveRuns > 0 && sc.runningCount(g) >= sc.maxActiveRuns {
+				continue NodesIteration
+			}
+""", "")
+mut('C11', 'handler_output_handover_removed', S, """			n.mu.Lock()
+			n.data.Step.OutputVariables = g.outputVariables
+			n.mu.Unlock()
+""", "")
+
 def main():
     import glob
     for f in glob.glob(V + '/C*/*.patch'):
